@@ -209,8 +209,8 @@ func (s *SpokFile) Run(stream iostream.IOStream, runner shell.Runner, force bool
 }
 
 // run is the implementation of the public Run method.
-func (s *SpokFile) run(stream iostream.IOStream, runner shell.Runner, force bool, runOrder []task.Task) (task.Results, error) {
-	results := make(task.Results, 0, len(runOrder))
+func (s *SpokFile) run(stream iostream.IOStream, runner shell.Runner, force bool, runOrder []task.Task) (results task.Results, err error) {
+	results = make(task.Results, 0, len(runOrder))
 
 	cachePath := filepath.Join(s.Dir, cache.Path)
 	if !cache.Exists(cachePath) {
@@ -230,6 +230,19 @@ func (s *SpokFile) run(stream iostream.IOStream, runner shell.Runner, force bool
 	// Whether or not any task's cached digest changed during this run, in which
 	// case the cache needs writing back to disk
 	cacheChanged := false
+
+	// The write back happens however the run ends: if a later task stops the run with an
+	// error (its files can't be hashed, the shell can't run its command) what the tasks before
+	// it recorded must not be lost, or they would be judged against out of date digests next time
+	defer func() {
+		if !cacheChanged {
+			return
+		}
+		s.logger.Debug("Updating cached state")
+		if dumpErr := cachedState.Dump(cachePath); dumpErr != nil && err == nil {
+			results, err = nil, dumpErr
+		}
+	}()
 
 	for _, taskToRun := range runOrder {
 		// Gather up all the files to be hashed into a single slice
@@ -307,13 +320,6 @@ func (s *SpokFile) run(stream iostream.IOStream, runner shell.Runner, force bool
 
 		// Gather up all the task results
 		results = append(results, task.Result{CommandResults: result, Task: taskToRun.Name, Skipped: skipped})
-	}
-
-	if cacheChanged {
-		s.logger.Debug("Updating cached state")
-		if err := cachedState.Dump(cachePath); err != nil {
-			return nil, err
-		}
 	}
 
 	return results, nil
